@@ -301,10 +301,35 @@ fn extremes(ctx: &Ctx, present: &AtomicU64) {
 }
 
 pub fn run(ctx: &Ctx) {
-    ctx.set_rule("accepted frames from the C01 generators (structured, random, mutated golden, 8-bit window sweeps; thorough: 16-bit windows of ME/MB) plus per-register extremes (all-min / all-max / sign-only value fields) and all 8192 AC/ID codes. Oracle: on the typed message (Debug has no NaN/inf, altitudes on their 25/100 ft grid, squawk digits, CPR counts, selected heading) and on every JSON key by name (angles in [0,360), |roll| <= 90, CPR < 2^17, vertical_rate multiple of 64 within +-32640, BDS 6,0 rates multiple of 32 within +-16384, GNSS difference multiple of 25, speeds >= 0 finite, Mach in (0,1], humidity [0,100], temperatures [-80,60], squawk four octal digits, call sign characters). Non-trivial = accepted frame with >= 1 checked quantity; distinct by hash of the bytes.");
+    ctx.set_rule("accepted frames from the C01 generators (structured, random, mutated golden, 8-bit window sweeps; thorough: 16-bit windows of ME/MB) plus per-register extremes (all-min / all-max / sign-only value fields), all 8192 AC/ID codes, and every frame of the per-field code sweeps of C03 (every code of every ADS-B and BDS 4,0/5,0/6,0 field, built by the independent encoder). Oracle: on the typed message (Debug has no NaN/inf, altitudes on their 25/100 ft grid, squawk digits, CPR counts, selected heading) and on every JSON key by name (angles in [0,360), |roll| <= 90, CPR < 2^17, vertical_rate multiple of 64 within +-32640, BDS 6,0 rates multiple of 32 within +-16384, GNSS difference multiple of 25, speeds >= 0 finite, Mach in (0,1], humidity [0,100], temperatures [-80,60], squawk four octal digits, call sign characters). Non-trivial = accepted frame with >= 1 checked quantity; distinct by hash of the bytes.");
     ctx.assume("BDS 6,0 vertical rates are bounded by the encodable span of the field (the property's wording), not by the decoder's tighter 6000 ft/min plausibility filter");
     let present = AtomicU64::new(0);
     extremes(ctx, &present);
+    // every code of every field the C03 sweeps enumerate (addresses, call-sign characters, squawks, air speeds and
+    // headings, vertical rates, GNSS differences, movement / surface track, target state, every BDS 4,0 / 5,0 / 6,0
+    // field incl. Mach code 1 and the largest plausible codes, DF20 labelling), through the range oracle
+    {
+        let frames = crate::c03::collect_frames(ctx.tier, ctx.seed);
+        use rayon::prelude::*;
+        let fails: std::sync::Mutex<Vec<(usize, Failure)>> = std::sync::Mutex::new(vec![]);
+        frames.par_iter().enumerate().for_each(|(i, f)| {
+            if let Err(e) = check_ranges(ctx, &present, f) {
+                let mut g = fails.lock().unwrap();
+                if g.len() < 64 {
+                    g.push((i, e));
+                }
+            }
+        });
+        let mut v = fails.into_inner().unwrap();
+        v.sort_by_key(|x| x.0);
+        let mut seen = std::collections::BTreeSet::new();
+        for (_, e) in v {
+            if seen.insert(e.signature.clone()) {
+                ctx.judge(Err(e));
+            }
+        }
+        ctx.class_n("frames of the per-field code sweeps (every code of every field)", frames.len() as u64);
+    }
     let suite = Suite::for_tier(ctx.tier);
     drive(ctx, &suite, &|f| check_ranges(ctx, &present, f));
     // thorough: coverage-guided campaign (libFuzzer), range oracle inside the target
